@@ -30,7 +30,7 @@ func (c13) Meta(tier string) engine.Meta {
 	}
 	return engine.Meta{
 		Level: "model_checking",
-		Rule: fmt.Sprintf("explicit enumeration of ALL histories of <= %d operations (both back ends up to depth 3, the VM at the last depth) over a menu of 25 operations on ONE engine: compile expression e0..e4 against one SHARED *types.Env object; invoke compiled expression k with one SHARED *val.Env object, with a host struct, with a host map; run Debug on two expressions; compile / invoke an expression that calls function values chosen at run time, with two shared environments holding different values. The expressions print, render multi-entry maps and objects, call string / union / intersect / diff with several surviving elements, reach one value through two paths, and fail. Every history is executed under map-iteration seeds 1..8. Oracle (differential): the last operation's result, its rendering (String() and string(x)), its error class and the captured standard output must equal those of the same operation on a brand-new engine with brand-new environments under seed 1; stdout is empty unless the expression calls print; the host struct / map deep-equal their snapshot afterwards. Plus a long history: 300 compilations of a 300-constant literal followed by fresh compilations. non-trivial = histories of >= 2 operations", d),
+		Rule: fmt.Sprintf("explicit enumeration of ALL histories of <= %d operations (both back ends up to depth 3, the VM at the last depth) over a menu of 26 operations on ONE engine (plus one operation that compiles and invokes on a SECOND engine with the same shared environments): compile expression e0..e4 against one SHARED *types.Env object; invoke compiled expression k with one SHARED *val.Env object, with a host struct, with a host map; run Debug on two expressions; compile / invoke an expression that calls function values chosen at run time, with two shared environments holding different values. The expressions print, render multi-entry maps (also with keys that differ only in case) and objects, apply floor / ceil / round / abs / max to variables that are read again afterwards, call string / union / intersect / diff with several surviving elements, reach one value through two paths, and fail. Every history is executed under map-iteration seeds 1..8. Oracle (differential): the last operation's result, its rendering (String() and string(x)), its error class and the captured standard output must equal those of the same operation on a brand-new engine with brand-new environments under seed 1; stdout is empty unless the expression calls print; the host struct / map deep-equal their snapshot afterwards. Plus a long history: 300 compilations of a 300-constant literal followed by fresh compilations. non-trivial = histories of >= 2 operations", d),
 		Bound: fmt.Sprintf("depth %d; 5 expressions; 3 environment representations; 8 seeds", d),
 		Assumptions: []string{"a state is the whole history that reaches it (no state merging), so no canonicalisation argument is needed"},
 	}
@@ -38,8 +38,8 @@ func (c13) Meta(tier string) engine.Meta {
 
 var c13Exprs = []string{
 	`print(n) + 1`,
-	`string(["a": n, "b": 2, "c": 3]) + string(o) + string(m)`,
-	`[diff([7, 1, 3, 9, 2, 8], l), union(l, [3, 1, 4, 1]), intersect([3, 2, 1, 0], l)]`,
+	`string(["a": n, "b": 2, "c": 3]) + string(o) + string(m) + string(["k": 1, "K": 2, "kk": 3, "Kk": 4]) + string([h, ng])`,
+	`[diff([7, 1, 3, 9, 2, 8], l), union(l, [3, 1, 4, 1]), intersect([3, 2, 1, 0], l), [floor(h), h, ceil(h), h, round(h), h, abs(ng), ng, -ng, ng, max(l), l[0]]]`,
 	`l[9]`,
 	`{a: [l, l], b: [m, m], c: ["k": n, "j": 2, "i": 3]}`,
 }
@@ -49,6 +49,8 @@ type c13Host struct {
 	L []float64          `yae:"l"`
 	O c13Obj             `yae:"o"`
 	M map[string]float64 `yae:"m"`
+	H  float64           `yae:"h"`
+	NG float64           `yae:"ng"`
 }
 
 type c13Obj struct {
@@ -57,12 +59,12 @@ type c13Obj struct {
 }
 
 func c13HostStruct() c13Host {
-	return c13Host{N: 2, L: []float64{1, 1, 2, 3, 3, 2}, O: c13Obj{"x", 1}, M: map[string]float64{"a": 1, "b": 2, "c": 3}}
+	return c13Host{N: 2, L: []float64{1, 1, 2, 3, 3, 2}, O: c13Obj{"x", 1}, M: map[string]float64{"a": 1, "b": 2, "c": 3, "A": 4}, H: 2.5, NG: -1.5}
 }
 
 func c13HostMap() map[string]interface{} {
 	h := c13HostStruct()
-	return map[string]interface{}{"n": h.N, "l": h.L, "o": h.O, "m": h.M}
+	return map[string]interface{}{"n": h.N, "l": h.L, "o": h.O, "m": h.M, "h": h.H, "ng": h.NG}
 }
 
 func c13Spec() real.EnvSpec {
@@ -70,7 +72,8 @@ func c13Spec() real.EnvSpec {
 		{Name: "n", V: ref.NumV(2)},
 		{Name: "l", V: ref.ListV(gen.Num, nums(1, 1, 2, 3, 3, 2)...)},
 		{Name: "o", V: oba(1, "x")},
-		{Name: "m", V: ref.MapV(gen.Str, gen.Num, ref.StrV("a"), ref.NumV(1), ref.StrV("b"), ref.NumV(2), ref.StrV("c"), ref.NumV(3))},
+		{Name: "m", V: ref.MapV(gen.Str, gen.Num, ref.StrV("a"), ref.NumV(1), ref.StrV("b"), ref.NumV(2), ref.StrV("c"), ref.NumV(3), ref.StrV("A"), ref.NumV(4))},
+		{Name: "h", V: ref.NumV(2.5)}, {Name: "ng", V: ref.NumV(-1.5)},
 	}}
 }
 
@@ -93,10 +96,14 @@ func c13DynSpec(b bool) real.EnvSpec {
 // operations: 22 compile e5; 23 / 24 invoke e5 with shared environment A / B;
 // 0..4 compile e_i; 5..19 invoke e_{(op-5)/3} with rep (op-5)%3 (0 shared raw env, 1 host
 // struct, 2 host map); 20, 21 Debug(e0), Debug(e2)
-const c13Ops = 25
+// 25: compile e1 on a SECOND engine against the same shared *types.Env and invoke it with the
+// shared *val.Env (environments must stay usable by other engines)
+const c13Ops = 26
 
 func c13OpName(op int) string {
 	switch {
+	case op == 25:
+		return "second-engine:compile+invoke(e1,shared-envs)"
 	case op < 5:
 		return fmt.Sprintf("compile(e%d)", op)
 	case op < 20:
@@ -149,6 +156,8 @@ func (c13) Generate(tier string, yield func(*engine.Case) bool) {
 				continue // cannot invoke what this history has not compiled
 			} else if op == 22 {
 				c2 |= 1 << 5
+			} else if op == 25 {
+				// no precondition
 			} else if op > 22 && compiled&(1<<5) == 0 {
 				continue
 			}
@@ -163,6 +172,7 @@ func (c13) Generate(tier string, yield func(*engine.Case) bool) {
 
 type c13World struct {
 	e        *yae.Expr
+	e2       *yae.Expr
 	tenv     *types.Env
 	venv     *val.Env
 	hstruct  c13Host
@@ -178,8 +188,12 @@ func newC13World(backend string) *c13World {
 	if backend == "closure" {
 		e.UseClosureCompiler()
 	}
+	e2 := yae.NewExpr()
+	if backend == "closure" {
+		e2.UseClosureCompiler()
+	}
 	spec := c13Spec()
-	return &c13World{e: e, tenv: spec.RawTypeEnv(), venv: spec.RawValEnv(), hstruct: c13HostStruct(), hmap: c13HostMap(),
+	return &c13World{e: e, e2: e2, tenv: spec.RawTypeEnv(), venv: spec.RawValEnv(), hstruct: c13HostStruct(), hmap: c13HostMap(),
 		tenv5: c13DynSpec(true).RawTypeEnv(), venvA: c13DynSpec(true).RawValEnv(), venvB: c13DynSpec(false).RawValEnv()}
 }
 
@@ -198,6 +212,11 @@ func (w *c13World) do(op int) (o c13Obs) {
 			}
 		}()
 		switch {
+		case op == 25:
+			var cb yae.Callable
+			if cb, err = w.e2.Compile(c13Exprs[1], w.tenv); err == nil {
+				v, err = cb(w.venv)
+			}
 		case op == 22:
 			w.callable[5], err = w.e.Compile(c13DynExpr, w.tenv5)
 		case op == 23:
@@ -264,7 +283,7 @@ func (c13) Run(c *engine.Case) *engine.Result {
 	if last >= 5 && last < 20 {
 		bw.do((last - 5) / 3)
 	}
-	if last > 22 {
+	if last > 22 && last != 25 {
 		bw.do(22)
 	}
 	base := bw.do(last)
